@@ -154,7 +154,7 @@ fn interesting_pairs(rng: &mut Rng, w: usize, n: usize) -> (Vec<u128>, Vec<u128>
 
 pub fn run(ctx: &mut Ctx) {
     // exhaustive operand pairs for small widths: one vectorised graph per (width, op, signedness)
-    let wmax = ctx.q(6usize, 8);
+    let wmax = ctx.q(7usize, 9);
     let combos: Vec<(usize, usize, bool)> = (1..=wmax)
         .flat_map(|w| (0..8).flat_map(move |o| [false, true].into_iter().map(move |s| (w, o, s))))
         .filter(|(w, o, s)| !(*s && (*w < 2 || *o == 4 || *o == 5)))
@@ -169,7 +169,7 @@ pub fn run(ctx: &mut Ctx) {
     });
     // wider operands: structured and uniform pairs, broadcast shape pairs
     let widths: Vec<usize> = (7..=16).chain([17, 24, 31, 32, 33, 63, 64, 65, 127, 128]).collect();
-    let total = ctx.q(1500, 40000);
+    let total = ctx.q(15000, 300000);
     ctx.cases("wide", total, |ctx, idx| {
         let w = widths[(idx as usize) % widths.len()];
         let o = ctx.rng.usize(8);
